@@ -848,6 +848,6 @@ fn main() {
         }
     }
     // coverage-guided byte-level campaign (libFuzzer target `compact_block_scan`, oracle inside the target)
-    ctx.run_fuzz("compact_block_scan", ctx.tier.pick(500_000, 10_000_000), ctx.tier.pick(4, 16), 4096);
+    ctx.run_fuzz("compact_block_scan", ctx.tier.pick(120_000, 5_000_000), ctx.tier.pick(4, 16), 4096);
     ctx.finish();
 }
